@@ -548,7 +548,7 @@ func lemmaHandOverThenCreate(rt *esdtNFTCreateRoleTransfer, cr *esdtNFTCreate, o
 //@   ensures[C15] err == nil && !readFailed && len(St[a][k]) != 0 ==> dType(St[a][k]) == 0 && !dValNil(St[a][k])
 //@   ensures[C03,C04] err == nil && !readFailed && len(old(e0)) != 0 && len(St[a][k]) != 0 ==> dProps(St[a][k]) == dProps(old(e0))
 //@   ensures[C03,C04] err == nil && !readFailed && len(old(e0)) == 0 && len(St[a][k]) != 0 ==> len(dProps(St[a][k])) == 0
-//@   ensures[C15] err == nil && !readFailed ==> (len(St[a][k]) == 0) == (val(old(St), a, k) + v == 0 && (len(old(e0)) == 0 || pempty(dProps(old(e0)))))
+//@   ensures[C03,C04,C15] err == nil && !readFailed ==> (len(St[a][k]) == 0) == (val(old(St), a, k) + v == 0 && (len(old(e0)) == 0 || pempty(dProps(old(e0)))))
 //@   ensures[C01,C10] err != nil && !failed && !readFailed ==> !isErr(err, ErrInvalidArguments)
 //@   ensures[C10] err != nil && !failed && !readFailed ==> (isErr(err, ErrOnlyFungibleTokensHaveBalanceTransfer) && len(old(e0)) != 0 && dType(old(e0)) != 0) || (isErr(err, ErrESDTIsFrozenForAccount) && !isReturnWithError && a != ESDTSC() && frozen(old(St), a, k)) || (isErr(err, ErrESDTTokenIsPaused) && !isReturnWithError && a != ESDTSC() && paused(old(St), k)) || (isErr(err, ErrInsufficientFunds) && val(old(St), a, k) + v < 0)
 //@   modifies St, failed, readFailed, loadFailed
